@@ -284,7 +284,8 @@ def compare(c, o, m):
             if p["set"] == "ok":
                 fail("infer:accepted:unequal", "covariance inferred from arrays of different "
                      "lengths", impl="ok", expected="reject")
-        elif mode == "const":
+        elif mode == "const" or std == 0 or fb(m["stdy"])[0] == 0:
+            # zero spread in either array (also when a "random" array happens to be constant)
             if p["set"] == "ok":
                 fail("infer:accepted:zero-spread", "covariance recorded with a zero-spread "
                      "array", impl="ok", expected="reject")
@@ -359,7 +360,7 @@ def chunk(sub, n):
 
 
 def correspond(ctx):
-    return H.run_chunks(ctx, chunk, ctx.n(600, 60000), chunk=300 if ctx.quick else 1500)
+    return H.run_chunks(ctx, chunk, ctx.n(600, 300000), chunk=300 if ctx.quick else 1500)
 
 
 # ---------------------------------------------------------------- independent oracle
